@@ -98,6 +98,8 @@ func init() {
 			call = func() { p, _, frames = VLeafNonTest(c, name, standalone) }
 		case "utiltest":
 			call = func() { p, _, frames = vLeafUtil(c, name, standalone) }
+		case "nontest_via_util":
+			call = func() { p, _, frames = vLeafNonTestViaUtil(c, name, standalone) }
 		case "nontestdeep":
 			depth := o.Count
 			call = func() { p, _, frames = VLeafDeepNonTest(depth, c, name, standalone) }
